@@ -112,8 +112,9 @@ Inductive arg :=
 | AFloat              (* double: convertible and nothrow-constructible *)
 | AClassNt            (* class type with a noexcept conversion to every integer type *)
 | AClassThrow         (* class type whose conversion may throw: convertible, not nothrow-constructible *)
+| AClassExplicit      (* class type with an EXPLICIT noexcept conversion: nothrow-constructible, not convertible *)
 | ANone.              (* a type without conversion to integers *)
-Definition arg_valid (a : arg) : bool := match a with AInt _ | AFloat | AClassNt => true | AClassThrow | ANone => false end.
+Definition arg_valid (a : arg) : bool := match a with AInt _ | AFloat | AClassNt => true | AClassThrow | AClassExplicit | ANone => false end.
 Definition count_ok (n R Rd : nat) : bool := Nat.eqb n R || Nat.eqb n Rd.
 Definition rankd (p : pattern) : nat := length (filter is_dyn p).
 
